@@ -26,3 +26,10 @@ package vm
 //@ requires vm != nil
 //@ requires[C03.unlocked] !ghost("lock.w", bool, &vm.runMutex)
 //@ ensures[C03.lock.released] !ghost("lock.w", bool, &vm.runMutex)
+
+// C07 / C03: a function that takes one of the VM's mutexes around code that can panic releases it in a DEFERRED call, so
+// that a recovered panic (the evaluation entries recover) cannot leave the mutex locked and block every later invocation
+// (seed C07i: loadCode held cloneMutex across the wrapping of the code - which dereferences nil for a function whose
+// root was never loaded - and released it with a plain Unlock). importModule's short critical section (one map store)
+// is released in line and is not listed.
+//@ scan[C07.locks.deferred] C07,C03 defercalls vm: (*VirtualMachine).loadCode=Unlock (*VirtualMachine).applyOptions=Unlock (*VirtualMachine).start=Unlock (*VirtualMachine).stop=Unlock (*VirtualMachine).SetIP=Unlock (*VirtualMachine).TOS=Unlock (*VirtualMachine).Clone=Unlock
